@@ -16,6 +16,13 @@
     address list), `revote_moves_weight`, `register_sets_deposit_votes`, `unregister_zeroes`,
     `topup_adds_floor_difference`, and `tally_kept_by_balance_only_block_partial` (the invariant is
     preserved by the pass when nobody's voteFor / candidacy changed in the block).
+  * REWARD BLOCKS (Finalize = term reward, deposit refunds, THEN the vote pass): `finalize_keeps_tally_partial` —
+    under the same guard the tally is exact after Finalize of ANY block, with respect to the POST-reward,
+    POST-refund balances of the voters (a deputy's income address that received its salary, an unregistered
+    candidate that got its deposit back); `finalize_changes_votes_only_by_pass` (reward and refunds touch nobody's
+    votes / voteFor / candidacy).  The ORDER is what makes it true: `votes_before_reward_refuted` — with the vote
+    pass run BEFORE issueTermReward / refundCandidateDeposit (model switch `votesLast := false`) the salaries and
+    refunds of the reward block never become votes (kernel-checked witness; the code as it stands passes it).
 -/
 import LemoProofs.C01
 namespace LemoProofs.C11
@@ -104,6 +111,86 @@ theorem tally_kept_by_balance_only_block_partial (c : Ctx) (start : Nat → Int)
   rw [passDelta_voterSum c start s x hx0 hc V, hstart]
   omega
 
+/-! ### Finalize of any block, reward blocks included -/
+
+open LemoProofs.LedgerReward in
+/-- the vote pass changes nothing but vote counts -/
+theorem votesByBalance_frame (c : Ctx) (start : Nat → Int) (s : St) (l : List Nat) (x : Nat) :
+    ((votesByBalance c start s l).accts x).voteFor = (s.accts x).voteFor ∧
+    ((votesByBalance c start s l).accts x).bal = (s.accts x).bal ∧
+    ((votesByBalance c start s l).accts x).isCand = (s.accts x).isCand ∧
+    ((votesByBalance c start s l).accts x).deposit = (s.accts x).deposit := by
+  rw [pass_formula]
+  simp [addVotes]
+
+open LemoProofs.LedgerReward in
+/-- **finalize_changes_votes_only_by_pass**: the term reward and the refunds of a reward block change nobody's
+    vote count, voteFor or candidacy — whatever `Finalize` does to a vote count, the vote pass did it. -/
+theorem finalize_changes_votes_only_by_pass (c : Ctx) (s : St) (x : Nat) :
+    ((rewardSteps c s).accts x).votes = (s.accts x).votes ∧
+    ((rewardSteps c s).accts x).voteFor = (s.accts x).voteFor ∧
+    ((rewardSteps c s).accts x).isCand = (s.accts x).isCand := by
+  have h := rewardSteps_frame c s x
+  exact ⟨h.2.1, h.1, h.2.2.1⟩
+
+theorem voterSum_congr (rate : Int) (vf vf' : Nat → Nat) (f f' : Nat → Int) (x : Nat)
+    (h1 : ∀ v, vf v = vf' v) (h2 : ∀ v, f v = f' v) : ∀ V, voterSum rate vf f x V = voterSum rate vf' f' x V := by
+  intro V
+  induction V with
+  | nil => rfl
+  | cons v vs ih => simp only [voterSum, ih, h1 v, h2 v]
+
+open LemoProofs.LedgerReward in
+/-- **finalize_keeps_tally_partial** (the end-of-block statement for EVERY height, reward blocks included; the code
+    as it stands: `votesLast = true`).  Let `s` be the state after the transactions and the miner's fee of a block
+    in which nobody's voteFor / candidacy / deposit changed (the same guard as for balance-only blocks), `start` the
+    balances when the block began, `V` any list containing the voters, `x` a registered candidate with deposit `dep`
+    that is not on the refund list (the list only holds UNregistered candidates).  If the tally of `x` was exact at
+    block start, then after `Finalize` — term reward paid, deposits refunded, vote pass — it is exact with respect to
+    the FINAL balances: the salaries and refunds of the block count as votes of the candidates their receivers vote for. -/
+theorem finalize_keeps_tally_partial (c : Ctx) (hvl : c.votesLast = true) (start : Nat → Int) (s : St) (V : List Nat)
+    (x : Nat) (hx0 : x ≠ 0) (hc : (s.accts x).isCand = 1) (dep : Int) (hdep : (s.accts x).deposit = some dep)
+    (hnr : x ∉ c.rf.refunds)
+    (hstart : (s.accts x).votes = dep / c.p.depositRate +
+        voterSum c.p.voteRate (fun v => (s.accts v).voteFor) start x V) :
+    ((finalize c start s V).accts x).votes = dep / c.p.depositRate +
+        voterSum c.p.voteRate (fun v => ((finalize c start s V).accts v).voteFor)
+          (fun v => ((finalize c start s V).accts v).bal) x V ∧
+    ((finalize c start s V).accts x).isCand = 1 ∧ ((finalize c start s V).accts x).deposit = some dep := by
+  unfold finalize
+  rw [if_pos hvl]
+  have hf := fun v => rewardSteps_frame c s v
+  have hc2 : ((rewardSteps c s).accts x).isCand = 1 := by rw [(hf x).2.2.1]; exact hc
+  have hstart2 : ((rewardSteps c s).accts x).votes = dep / c.p.depositRate +
+      voterSum c.p.voteRate (fun v => ((rewardSteps c s).accts v).voteFor) start x V := by
+    rw [(hf x).2.1, hstart]
+    congr 1
+    exact voterSum_congr _ _ _ _ _ x (fun v => ((hf v).1).symm) (fun _ => rfl) V
+  have key := tally_kept_by_balance_only_block_partial c start (rewardSteps c s) V x hx0 hc2 dep hstart2
+  have hfr := fun v => votesByBalance_frame c start (rewardSteps c s) V v
+  refine ⟨?_, ?_, ?_⟩
+  · rw [key]
+    congr 1
+    exact voterSum_congr _ _ _ _ _ x (fun v => ((hfr v).1).symm) (fun v => ((hfr v).2.1).symm) V
+  · rw [(hfr x).2.2.1]; exact hc2
+  · rw [(hfr x).2.2.2, rewardSteps_deposit_other c s x hnr]; exact hdep
+
+/-- **empty_block_keeps_tally**: a block without transactions — at ANY height, a reward block included, for ALL
+    states, reward facts and refund lists — keeps the tally of every registered candidate (not on the refund list)
+    exact: whatever the term reward and the refunds add to the voters' balances is added to the candidate's votes. -/
+theorem empty_block_keeps_tally (c : Ctx) (hvl : c.votesLast = true) (s : St) (gp : Nat) (V : List Nat)
+    (x : Nat) (hx0 : x ≠ 0) (hc : (s.accts x).isCand = 1) (dep : Int) (hdep : (s.accts x).deposit = some dep)
+    (hnr : x ∉ c.rf.refunds)
+    (htally : (s.accts x).votes = dep / c.p.depositRate +
+        voterSum c.p.voteRate (fun v => (s.accts v).voteFor) (fun v => (s.accts v).bal) x V) :
+    ((mineBlock c s gp [] V).1.accts x).votes = dep / c.p.depositRate +
+        voterSum c.p.voteRate (fun v => ((mineBlock c s gp [] V).1.accts v).voteFor)
+          (fun v => ((mineBlock c s gp [] V).1.accts v).bal) x V := by
+  have h : (mineBlock c s gp [] V).1 = finalize c (fun a => (s.accts a).bal) s V := by
+    simp [mineBlock, mine, chargeForGas]
+  rw [h]
+  exact (finalize_keeps_tally_partial c hvl _ s V x hx0 hc dep hdep hnr htally).1
+
 /-! ### single transactions -/
 
 /-- **revote_moves_weight**: a successful vote tx by `voter` (balance-before-tx `ib`, weight
@@ -183,6 +270,49 @@ theorem tally_refuted :
     (s'.accts 21).voteFor = 20 ∧ (s'.accts 21).bal = 250 ∧
     (s'.accts 20).votes = 12 ∧
     1000 / rp.depositRate + voterSum rp.voteRate (fun v => (s'.accts v).voteFor) (fun v => (s'.accts v).bal) 20 rU = 11 := by
+  decide
+
+/-! ### the order of the steps of Finalize matters (kernel-checked witness) -/
+
+/-- TermDuration 10, InterimDuration 2: height 13 is the first reward block. Candidate 20 (registered, deposit 1000,
+    10 votes). The closing term's only node is miner 3 whose income address 4 votes for 20 (balance 0); account 30
+    unregistered earlier (deposit 1000 still held, refund postponed) and votes for 20 (balance 100). Term reward 600. -/
+def op : Params := { voteRate := 200, depositRate := 100, minDeposit := 1000, termDuration := 10, interimDuration := 2,
+                     pool := 1, rewardPrecision := 1 }
+def os0 : St :=
+  { accts := fun a =>
+      if a = 1 then { bal := 2000 }
+      else if a = 20 then { isCand := 1, deposit := some 1000, votes := 10, income := 20 }
+      else if a = 3 then { income := 4 } else if a = 4 then { voteFor := 20 }
+      else if a = 30 then { isCand := 2, deposit := some 1000, bal := 100, voteFor := 20 } else {} }
+def octx (votesLast : Bool) : Ctx :=
+  { p := op, miner := 3, height := 13, rf := { total := 600, nodes := [(3, 0)], refunds := [30] }, votesLast := votesLast }
+def oU : List Nat := [1, 3, 4, 20, 30]
+
+/-- the tally formula of the property, on a state -/
+def tallyOf (p : Params) (s : St) (dep : Int) (x : Nat) (V : List Nat) : Int :=
+  dep / p.depositRate + voterSum p.voteRate (fun v => (s.accts v).voteFor) (fun v => (s.accts v).bal) x V
+
+/-- **votes_before_reward_refuted**: an empty reward block. In both orders the balances end the same (4 receives the
+    salary 600, 30 its deposit 1000) and the tally formula gives 10 + 3 + 5 = 18 for candidate 20.
+    The code as it stands (vote pass last) gives 20 exactly 18 votes; with the vote pass run before the term reward and
+    the refunds, 20 keeps 10 votes: the 8 votes of the salary and the refund are never counted. -/
+theorem votes_before_reward_refuted :
+    isRewardBlock (octx true) = true ∧
+    tallyOf op os0 1000 20 oU = (os0.accts 20).votes ∧
+    ((mineBlock (octx true) os0 100000000 [] oU).1.accts 20).votes = 18 ∧
+    tallyOf op (mineBlock (octx true) os0 100000000 [] oU).1 1000 20 oU = 18 ∧
+    ((mineBlock (octx false) os0 100000000 [] oU).1.accts 20).votes = 10 ∧
+    tallyOf op (mineBlock (octx false) os0 100000000 [] oU).1 1000 20 oU = 18 ∧
+    ((mineBlock (octx false) os0 100000000 [] oU).1.accts 4).bal = 600 ∧
+    ((mineBlock (octx false) os0 100000000 [] oU).1.accts 30).bal = 1100 := by
+  decide
+
+/-! non-vacuity of `finalize_keeps_tally_partial` on the same reward block -/
+example : (octx true).votesLast = true ∧ (os0.accts 20).isCand = 1 ∧ (os0.accts 20).deposit = some 1000 ∧
+    20 ∉ (octx true).rf.refunds ∧
+    (os0.accts 20).votes = 1000 / (octx true).p.depositRate +
+      voterSum (octx true).p.voteRate (fun v => (os0.accts v).voteFor) (fun a => (os0.accts a).bal) 20 oU := by
   decide
 
 end LemoProofs.C11
